@@ -352,8 +352,9 @@ def register(generators, gm):
             # ---- the adapter once more, over the concrete types: its builder calls are the functions above
             bits = GA.effect_bits(gm)
             rel = GA.LIBS["ansi_term"]["src"]
-            asrc = gm.read(rel)
+            asrc = GA.read_src(gm, rel)
             av = conc_vocab(bits)
+            av["inline_sources"] = [GA.anstyle_color_src(gm)]
             GA.check_file(gm, rel, asrc, parse(rel, asrc), av)
             out.append("(* ---- %s over ansi_term's own types ---- *)" % rel)
             out.append(translate(asrc, av, [
